@@ -49,6 +49,8 @@ def _strip_doc(body: list[ast.stmt]) -> list[ast.stmt]:
 def _kind(fn: T.Any) -> str | None:
     """'method' (takes self), 'static' (staticmethod / classmethod / module function: no receiver parameter), or None."""
     decos = [ast.unparse(d) for d in fn.decorator_list]
+    # memoisation of a function changes no result (the analysis looks at what is computed, not how often)
+    decos = [d for d in decos if d.split("(")[0] not in ("functools.lru_cache", "lru_cache", "functools.cache", "cache")]
     if not decos:
         return "method"
     if decos == ["staticmethod"]:
@@ -118,6 +120,8 @@ def _terminates(stmts: list[ast.stmt]) -> bool:
         return bool(last.orelse) and _terminates(last.body) and _terminates(last.orelse)
     if isinstance(last, (ast.With, ast.AsyncWith)):
         return _terminates(last.body)
+    if isinstance(last, ast.Try):
+        return _terminates(last.finalbody) or ((_terminates(last.orelse) if last.orelse else _terminates(last.body)) and all(_terminates(h.body) for h in last.handlers))
     if isinstance(last, ast.While) and isinstance(last.test, ast.Constant) and bool(last.test.value) is True and not _own_breaks(last):
         return True
     return False
@@ -619,7 +623,8 @@ def _module_bindings(tree: ast.Module) -> set[str]:
 _SERIAL = [0]
 
 
-def inline_new_helpers(tree: ast.Module, known_functions: set[str], extern: dict[str, tuple[T.Any, str, ast.Module]] | None = None) -> list[str]:
+def inline_new_helpers(tree: ast.Module, known_functions: set[str], extern: dict[str, tuple[T.Any, str, ast.Module]] | None = None,
+                       keep: T.Container[str] = frozenset()) -> list[str]:
     """Inline helpers that are not in `known_functions` (keys 'Class.method' / 'function').  `extern`: new module-level helpers of
     OTHER units that this unit imports: local name -> (definition, defining module, its tree); the module-level names their bodies
     use are imported from the defining module."""
@@ -863,6 +868,8 @@ def inline_new_helpers(tree: ast.Module, known_functions: set[str], extern: dict
             if getattr(h, "_extern", False):
                 dropped.add(name)
                 changed = True
+                continue
+            if name in keep:
                 continue
             still = any((isinstance(n, ast.Attribute) and n.attr == name) or (isinstance(n, ast.Name) and n.id == name)
                         for f in allf if f is not h and not (f.name in dropped and new.get(f.name) is f) for n in ast.walk(f))
